@@ -20,7 +20,7 @@ def evalProp (prop : String) (p : Program) (r : Result) (linksOk : Bool) : List 
   | "C09" => (P_C09 r, pi_C09 r)
   | "C10" => (P_C10 p r, pi_stacks isLabelInstr r)
   | "C11" => (P_C11g p r, pi_stacks isReturnInstr r)
-  | "C12" => (P_C12 r, pi_stacks isValueInstr r)
+  | "C12" => (P_C12g p r, pi_stacks isValueInstr r)
   | "C13" => (P_C13 p r, "ok")
   | "C14" => (P_C14 p r, pi_firstError r)
   | "C15" => (P_C15 p r, pi_C15 r)
